@@ -66,7 +66,6 @@ CONTRACTS = [
              trusted_reason="pathlib: p / q as an uninterpreted constructor"),
     Contract("ext::Path.with_name", params={"name": "str"}, returns="Val[Path]", ensures=["result == Path_with_name(self, name)"],
              trusted_reason="pathlib: with_name as an uninterpreted constructor"),
-    Contract("ext::Path.exists", returns="bool", trusted_reason="file-system query: any answer"),
     Contract("ext::str.split", params={"sep": "str"}, returns="Seq[str]",
              trusted_reason="str.split result is opaque at this level"),
 
